@@ -4,9 +4,12 @@ import BytomModel.Gen.WalletFacts
 namespace BytomModel.Ties.C24
 open BytomModel.Gen.WalletFacts
 
-/-- detachUtxos looks outputs up with tx.OriginalOutput ONLY (model: `detachOps` deletes kind 0
-    only) and walks the transactions in reverse (model: `detach`) -/
-theorem detach_tie : detachOutputAccessors = ["OriginalOutput"] ∧
+/-- detachUtxos ranges over ALL outputs of a transaction, never looks at the entry type
+    (no tx.OriginalOutput / tx.VoteOutput call) and chooses the key class by the output's own
+    control program (model: `detachOps` deletes every P2W output id); it walks the transactions
+    in reverse (model: `detach`) -/
+theorem detach_tie : detachOutputAccessors = [] ∧ detachOutputLoop = ["range tx.Outputs"] ∧
+    detachConditions = ["segwit.IsP2WScript(out.ControlProgram)", "err != nil"] ∧
     detachTxLoop = ["txIndex := len(b.Transactions) - 1; txIndex >= 0; txIndex--"] := by decide
 
 /-- txOutToUtxos stores original (non-zero amount) and vote outputs (model: `outUtxo`) -/
